@@ -88,7 +88,7 @@ def generic(mod, pid, args, seed, t0):
   if hasattr(mod, 'extra_obligations'):
     from engine import smt
     extra = mod.extra_obligations(repo)
-    smt.discharge(extra, timeout_s=5, phase2=False)
+    smt.discharge([o for o in extra if not getattr(o, 'prechecked', False)], timeout_s=5, phase2=False)
     obls += extra
   names = [o.name for o in obls]
   failed = [o for o in obls if o.status != 'proved']
@@ -155,6 +155,9 @@ def generic(mod, pid, args, seed, t0):
       for o in failed:
         print('  failed obligation: %s [%s] %s' % (o.name, o.status, o.detail))
       exit_code = 1
+    elif ex.missing_anchors:
+      for msg in ex.missing_anchors:
+        problems.append((2, 'UNDECIDED property=%s reason=contract-misfit: %s; %d obligation(s) no longer proved and the native search found no failing input' % (pid, msg, len(failed))))
     elif all(getattr(o, 'undecided_if_no_witness', False) for o in failed):
       for o in failed:
         problems.append((2, 'UNDECIDED property=%s obligation=%s reason=%s (native search found no failing input)' % (pid, o.name, o.detail)))
